@@ -333,6 +333,16 @@ theorem pre_proposal002_balance_not_restored :
     (obs c s A1 [] [] []).balance = 7 := by
   decide
 
+/-- `ripemd-touch-not-undone`: `touchChange.undo` skips the address `ripemd`; a storage-only `ripemd`
+    account touched inside a reverted region stays dirty and is deleted by `Finalise(true)` -/
+theorem revert_restores_root_counterexample_ripemd :
+    let s := reopen (commit true (setData ADB.empty c0.ripemd [0x6b] [7]))
+    content (revert c0 (addFT (snapshot s).1 c0.ripemd [0x66, 0x3a, 0x78] 0) (snapshot s).2) = [] ∧
+    content s = [(c0.ripemd, ⟨0, [([0x6b], [7])], emptyCodeHash⟩)] ∧
+    -- any other address: the touch is undone and the account stays
+    content (revert c0 (addFT (snapshot sStorageOnly).1 A1 [0x66, 0x3a, 0x78] 0) (snapshot sStorageOnly).2) = content sStorageOnly := by
+  decide
+
 /-! ## revision stack -/
 
 /-- a snapshot id is larger than every id on the stack and the stack stays sorted: ids are never reused -/
